@@ -5,6 +5,7 @@ import (
 	"go/constant"
 	"go/token"
 	"go/types"
+	"strconv"
 	"strings"
 
 	"golang.org/x/tools/go/ssa"
@@ -1863,6 +1864,16 @@ func ruleC17CommentStates(c *Ctx) {
 		// bytes of the text compared with constants, the scanner's helpers included
 		got := map[int64]bool{}
 		deepInstrs(f, func(_ *ssa.Function, tb *TB, _ *ssa.BasicBlock, in ssa.Instruction) {
+			// (the starters may also be looked for as text: strings.HasPrefix(rest, "--"), strings.Index(rest, "*/"))
+			if call, isCall := in.(*ssa.Call); isCall && strings.HasPrefix(calleeName(call.Common()), "strings.") && len(call.Call.Args) >= 2 {
+				if t := tb.Of(call.Call.Args[1]); t.Op == "const" {
+					if u, err := strconv.Unquote(t.Name); err == nil {
+						for i := 0; i < len(u); i++ {
+							got[int64(u[i])] = true
+						}
+					}
+				}
+			}
 			bo, ok := in.(*ssa.BinOp)
 			if !ok || (bo.Op != token.EQL && bo.Op != token.NEQ) {
 				return
